@@ -19,7 +19,8 @@ RULE = ('Cases: initial lat in [-85,85] (strata |lat|<5, mid, >75, both signs), 
         'speed 0..300 m/s in a random direction, attitude uniform on SO(3) (|pitch| up to 89.9); body rate and specific '
         'force = constant (reaction to gravity in the initial attitude) + 1..3 sinusoids per axis with amplitudes '
         'log-uniform up to 3 rad/s / 2 g (scaled down for long horizons), 0.2..8 rad/s; sensor type rate (exact samples) '
-        'or increment (analytic integrals, incl. the "before" sample); h in {1,2,5,10,20,50} ms; horizon in {2,10,60,300} s. '
+        'or increment (analytic integrals, incl. the "before" sample); h in {1,2,5,10,20,50} ms; horizon in {2,10,60,300} s; clause '
+        '`schuler`: horizons 1200 s and 5064 s (one Schuler period) with gentle signals at 10..50 ms. '
         'Oracle: own RK4 of the NED navigation ODE at 0.5 and 0.25 ms (their difference enters the floor); state distance '
         '= (position m, velocity m/s, attitude rotation angle rad), max over 10 checkpoints. Non-trivial = 3-axis '
         'rotation with non-parallel rate harmonics and non-zero speed, and "discriminating": 4*d(h,h/2)+floor below '
@@ -49,7 +50,7 @@ def build_signals(case, C0, lat, alt):
     rng = np.random.RandomState(case['sub'])
     K = case['nharm']
     T = case['T']
-    scale = {2.0: 1.0, 10.0: 1.0, 60.0: 0.1, 300.0: 0.02}[T]
+    scale = {2.0: 1.0, 10.0: 1.0, 60.0: 0.1, 300.0: 0.02, 1200.0: 0.004, 5064.0: 0.001}[T]
     wamp = 10 ** case['wamp_exp'] * scale
     famp = 10 ** case['famp_exp'] * scale
     P = np.zeros((6, K + 1, 3))
@@ -60,6 +61,12 @@ def build_signals(case, C0, lat, alt):
     fb0 = C0.T @ np.array([0.0, 0.0, -g])
     for c in range(3):
         P[3 + c, K] = [fb0[c], 0.0, np.pi / 2]
+    if T > 300:
+        # long horizons: the constant part of the body rate is Earth rate in the initial body axes, so that the platform
+        # stays near level (Schuler regime) instead of tilting by Earth rate x T
+        wb0 = C0.T @ W.rate_n(lat)
+        for c in range(3):
+            P[c, K] = [wb0[c], 0.0, np.pi / 2]
     return P, wamp, famp
 
 
@@ -120,7 +127,8 @@ def run_convergence(case, ctx):
     q = ROT.quat_from_dcm(C0)
     y0 = np.hstack([pva.lat * W.D2R, pva.lon * W.D2R, pva.alt, pva[['VN', 'VE', 'VD']].values.astype(float), q])
     nout = 10
-    n1 = int(round(T / 5e-4))
+    ref_step = 5e-4 if T <= 300 else 2e-3          # gentle long runs: 2 / 1 ms (self-error still enters the floor)
+    n1 = int(round(T / ref_step / nout)) * nout
     ref1 = N.rk4(y0, P, T, n1, nout)
     ref2 = N.rk4(y0, P, T, 2 * n1, nout)
     lat = 'lat<5' if abs(pva.lat) < 5 else 'lat>75' if abs(pva.lat) > 75 else 'lat_mid'
@@ -128,7 +136,9 @@ def run_convergence(case, ctx):
               'speed=' + ('0' if case['pva']['speed'] == 0 else '<30' if case['pva']['speed'] < 30 else '>=30'),
               'alt=' + ('<1km' if pva.alt < 1000 else '>=1km'), 'pitch>85' if abs(pva.pitch) > 85 else 'pitch<=85')
     spd = np.linalg.norm(ref2[:, 3:6], axis=1).max()
-    if np.abs(ref2[:, 0]).max() > 88 * W.D2R or ref2[:, 2].min() < -5000 or ref2[:, 2].max() > 60000 or spd > 1500:
+    long_run = T > 300
+    alt_lo, alt_hi, vmax = (-2e5, 2e6, 5000.0) if long_run else (-5000.0, 60000.0, 1500.0)   # the unstable vertical channel wanders far in 5064 s
+    if np.abs(ref2[:, 0]).max() > 88 * W.D2R or ref2[:, 2].min() < alt_lo or ref2[:, 2].max() > alt_hi or spd > vmax:
         ctx.inconclusive['left_domain'] += 1
         return
     tr_ref1 = pd.DataFrame({'lat': ref1[:, 0] / W.D2R, 'lon': ref1[:, 1] / W.D2R, 'alt': ref1[:, 2], 'VN': ref1[:, 3], 'VE': ref1[:, 4], 'VD': ref1[:, 5]})
@@ -161,8 +171,23 @@ def run_convergence(case, ctx):
     ctx.mark_nontrivial(bool(three_axis and case['pva']['speed'] > 0 and disc))
 
 
+def schuler_strategy():
+    """Long horizons up to a Schuler period (5064 s), gentle signals, coarse sampling."""
+    return st.fixed_dictionaries({
+        'pva': gen.pva_strategy(max_lat=80.0, max_pitch=60.0, max_speed=100.0),
+        'sensor_type': st.sampled_from(['rate', 'increment']),
+        'h': st.sampled_from([0.01, 0.02, 0.05]),
+        'T': st.sampled_from([1200.0, 1200.0, 5064.0]),
+        'nharm': st.integers(1, 2),
+        'wamp_exp': st.floats(-2.0, 0.0),
+        'famp_exp': st.floats(-1.0, 1.0),
+        'sub': st.integers(0, 2 ** 31 - 1),
+    })
+
+
 CLAUSES = [
     Clause('convergence', case_strategy, run_convergence, quick=(64, 8), thorough=(2400, 16), shrink_quick=False),
+    Clause('schuler', schuler_strategy, run_convergence, quick=(4, 4), thorough=(96, 16), shrink_quick=False),
 ]
 
 
